@@ -6,8 +6,8 @@ From Coq Require Import String Ascii List Bool Arith.
 Import ListNotations.
 Open Scope string_scope.
 
-(* A site is "file|function|kind|expression".  It is matched on file, kind and expression: extracting a helper or
-   renaming a function inside a file does not change what can panic / iterate.  Counting keeps a NEW site with the
+(* A site is "file|function|kind|expression".  It is matched on package directory, kind and expression: extracting a
+   helper, renaming a function or moving it to another file of the package does not change what can panic / iterate.  Counting keeps a NEW site with the
    text of an old one visible: the source may not contain more sites of a key than the table accounts for. *)
 Fixpoint drop_to_bar (s : string) : string :=
   match s with
@@ -19,7 +19,19 @@ Fixpoint take_to_bar (s : string) : string :=
   | EmptyString => EmptyString
   | String c r => if Ascii.eqb c "|" then EmptyString else String c (take_to_bar r)
   end.
-Definition site_key (s : string) : string := take_to_bar s ++ "|" ++ drop_to_bar (drop_to_bar s).
+(* the directory of "dir/file.go" with its final slash: moving code to another file of the same package changes
+   nothing either *)
+Fixpoint has_slash (s : string) : bool :=
+  match s with
+  | EmptyString => false
+  | String c r => if Ascii.eqb c "/" then true else has_slash r
+  end.
+Fixpoint dir_of (s : string) : string :=
+  match s with
+  | EmptyString => EmptyString
+  | String c r => if has_slash s then String c (dir_of r) else EmptyString
+  end.
+Definition site_key (s : string) : string := dir_of (take_to_bar s) ++ "|" ++ drop_to_bar (drop_to_bar s).
 Definition count_key (k : string) (l : list string) : nat := length (filter (String.eqb k) l).
 
 Definition unaccounted (sites : list string) (table : list (string * string)) : list string :=
@@ -313,11 +325,8 @@ Definition range_table : list (string * string) := [
   ("x/oracle/voteprocessor/voteprocessor.go|*VoteProcessor[Source, Data].pickMostVoted|range|_ exits=1 calls=",
    "executed only when that map has exactly one entry: the early return takes that entry (pick_spec)")].
 
-Definition clock_table : list (string * string) := [
-  ("x/oracle/abci.go|EndBlocker|clock|time.Now()",
-   "telemetry.ModuleMeasureSince: metrics only, nothing is written to state");
-  ("x/settlement/abci.go|EndBlock|clock|time.Now()",
-   "telemetry.ModuleMeasureSince: metrics only, nothing is written to state")].
+(* a time.Now() whose value can only reach a telemetry.* call (metrics sink) is not listed by the scanner at all *)
+Definition clock_table : list (string * string) := [].
 
 (* Process-local state: every struct field and every package-level variable of the consensus packages.
    State that matters to consensus has to live in the multistore: that is what baseapp rolls back when a transaction
